@@ -255,6 +255,12 @@ func TestC19(t *testing.T) {
 			files[fname] = src
 			fmt.Fprintf(&all, "# %s\n%s", fname, src)
 		}
+		if c.g.Chance(1, 3) {
+			// files that are named like a module but are none: no extension, or another one
+			c.kinds["stray-file-named-like-module"] = true
+			files[c.g.Str("nosuchmod", "nosuchmod.txt", "nosuchmod.py.bak")] = "x = 1\nlg = None\n"
+			fmt.Fprintf(&all, "# a stray file named nosuchmod*\n")
+		}
 		mainProg := c.main()
 		all.WriteString("# main\n" + mainProg)
 		text := all.String()
